@@ -51,6 +51,12 @@ impl Num {
         res
     }
 
+    /// Verification hook: numerator and denominator exactly as stored
+    #[cfg(hyeong_verif)]
+    pub fn verif_parts(&self) -> (&BigNum, &BigNum) {
+        (&self.up, &self.down)
+    }
+
     /// Makes new `Num`
     /// Support negative numbers
     ///
